@@ -561,7 +561,7 @@ def check(tier, args):
     from .runner import VERIF
     from .driver import base_seed
     t0 = time.time()
-    nprog = args.runs or (6000 if tier == 'quick' else 80000)
+    nprog = args.runs or (60000 if tier == "quick" else 600000)
     budget = args.budget or (150.0 if tier == 'quick' else 900.0)
     b = base_seed()
     seeds = [b * 1000003 + i for i in range(nprog)]
